@@ -37,7 +37,7 @@ Vocabulary (`Goat/Proofs/DiskFSDefs.lean`, `DiskFSRun.lean`, `DiskFSFrame.lean`,
   `Tolerated`          the five classes of calls outside `Pre` which the disk filespace carries out
   `opArgs r op`, `Addressed`, `Above`   the normalised arguments of a call; at or below one; strictly above one
 -/
-import Goat.Proofs.DiskFSConfine
+import Goat.Proofs.DiskFSReads
 
 namespace Goat.C02
 
@@ -104,9 +104,10 @@ theorem mem_disk_agree (H0 : Host) (r0 : HPath) (hwf : H0.WF) (hroot : H0.get r0
 /- Backend pairs covered by `mem_disk_agree` / `mem_disk_agree_from`: (memory filespace, disk filespace
    rooted at ANY directory `r0` of the host — in particular a disk child view, which is a disk filespace of
    its own) and, for every view opened in the history, (memory view at `b`, disk view at `r0 ++ b`).
-   Not stated: a memory CHILD VIEW as handle 0 against a disk filespace rooted in its own directory (an
-   offset on the memory side).  It would follow the same way (`FS.Step_rebase` applied to the memory run),
-   except that `Lstat("")` then names the view's base on one side and the directory on the other. -/
+   The remaining pairing — a memory CHILD VIEW as handle 0 against a disk filespace rooted in its own
+   directory (an offset on the memory side) — and with it every pair of handles is section 5 (`pair_agree`):
+   there `Lstat("")` names the view's base on one side and the directory on the other, which is the one
+   difference and is stated as such. -/
 
 /-- The same from any pair of worlds that show the same tree with the same views open (`Sim`): backends
 may be switched in mid-history. -/
@@ -229,8 +230,8 @@ theorem host_confined_run (H0 : Host) (r0 : HPath) (hwf : H0.WF) (hroot : H0.get
 /- FULL STATEMENT (reads): "no call reads host state outside the root directory", i.e. for ALL calls
      two hosts that agree below `r0` give the same result and the same tree below `r0`.
    Proved below for the calls inside `Pre` (where the answer is the specification's, a function of the
-   tree below the root).  Missing: the calls outside `Pre`; there the property only asks for a clean
-   failure, and the writes are confined by `host_confined`. -/
+   tree below the root).  The calls outside `Pre` are covered by section 6 (`host_reads_confined`), which
+   proves the full statement — for every call, with equal outcomes — by a direct argument. -/
 
 /-- HOST CONFINEMENT of reads (partial: calls inside `Pre`).  Two well-formed hosts that show the same
 tree below `r0`: a call inside `Pre` through the filespace rooted at `r0 ++ b` answers alike on both and
@@ -251,5 +252,155 @@ example :
        (0, .copyDirectory [] [46, 46, 47, 122]), (0, .writeFile [120] [7])]).1.host.get [[114, 111, 111, 116, 120], [105, 110, 110, 101, 114]]
       = some (.file [120]) := by decide
 example : ¬ demoRoot <+: [[104, 111, 115, 116, 115, 101, 99, 114, 101, 116]] := by decide
+
+/-! ### 5. Every backend pair: any memory handle against any disk handle -/
+
+/- Vocabulary (`Goat/Proofs/DiskFSPair.lean`):
+  `SimG m0 r0 w dw`   THE PAIR: the memory world `w` and the disk world `dw` show the same tree, memory below
+                      `m0`, the host below `r0`, and have the same views open: the memory handles have the bases
+                      `m0 ++ c`, the disk handles the roots `r0 ++ c`, for the same list of `c`.  `m0 = []` is the
+                      memory root filespace, any other `m0` a memory CHILD VIEW; `r0` is the directory of a disk
+                      root filespace or of a disk child view (a disk view is a disk filespace rooted deeper).
+  `PreN`, `AllPreN`   the precondition `Pre` WITHOUT its clause about `Lstat`
+  `RootLstat m0 w h op`   the call is `Lstat` of the pair's own root (it normalises to `m0` itself)
+  `AllAgreeG m0 r0 w ops rs os`   call by call: the two sides agree (`Agree`: same result up to `ResEq`, no panic)
+                      OR the call is `RootLstat` and the memory side answers `stat (name of m0) dir`, the disk
+                      side `stat (name of r0) dir` — the one and only difference between the backends. -/
+
+/-- EVERY BACKEND PAIR.  A memory handle — root filespace or child view at any base `m0` — and a disk
+handle — root filespace or child view, at any directory `r0` of any well-formed host — that show the same
+tree, with the views opened from them in step (`SimG`); any history through any of these handles, inside the
+precondition (`AllPreN`).  The two models end in the same tree again, and answer alike call by call, the ONLY
+exception being `Lstat` of the pair's own root, where each names its own root directory. -/
+theorem pair_agree (m0 r0 : HPath) (w : MemFS.World) (dw : World) (hsim : SimG m0 r0 w dw)
+    (ops : List (Nat × Op)) (hpre : AllPreN w ops) :
+    AllAgreeG m0 r0 w ops (w.run ops).2 (dw.run ops).2 ∧ SimG m0 r0 (w.run ops).1 (dw.run ops).1 := by
+  obtain ⟨hs, ha⟩ := simG_run m0 r0 w dw hsim ops hpre
+  exact ⟨ha, hs⟩
+
+/-- … in particular the trees: what stands at `m0 ++ q` in memory stands at `r0 ++ q` on the host. -/
+theorem pair_same_tree (m0 r0 : HPath) (w : MemFS.World) (dw : World) (hsim : SimG m0 r0 w dw)
+    (ops : List (Nat × Op)) (hpre : AllPreN w ops) (q : HPath) :
+    abs (w.run ops).1.root (m0 ++ q) = (dw.run ops).1.host.get (r0 ++ q) :=
+  (simG_run m0 r0 w dw hsim ops hpre).1.state q
+
+/-- One call of a pair, spelled out: the two sides agree, or the call is `Lstat` of the pair's own root and
+the answers are exactly `stat <name of m0> dir` and `stat <name of r0> dir`. -/
+theorem pair_step_only_difference (m0 r0 : HPath) (w : MemFS.World) (dw : World) (hsim : SimG m0 r0 w dw)
+    (h : Nat) (op : Op) (hpre : PreAtN w h op) :
+    Agree (w.step h op).2 (dw.step h op).2
+    ∨ (RootLstat m0 w h op ∧ (w.step h op).2 = .stat (FS.statName m0) true 0
+        ∧ (dw.step h op).2 = .val (.stat (DiskFS.statName r0) true 0)) :=
+  (simG_step m0 r0 w dw hsim h op hpre).2
+
+/-- When the two root directories carry the same name — or the history never asks for it — nothing
+differs at all. -/
+theorem pair_agree_same_names (m0 r0 : HPath) (w : MemFS.World) (dw : World) (hsim : SimG m0 r0 w dw)
+    (ops : List (Nat × Op)) (hpre : AllPreN w ops)
+    (hname : FS.statName m0 = DiskFS.statName r0 ∨ ∀ w' h' op', ¬ RootLstat m0 w' h' op') :
+    AllAgree (w.run ops).2 (dw.run ops).2 :=
+  allAgree_of_allAgreeG m0 r0 w ops _ _ (simG_run m0 r0 w dw hsim ops hpre).2 hname
+
+/-- A memory handle `ref` (the root filespace or a child view at any base) of any well-formed tree `t`
+and a disk filespace rooted at `r0` that show the same tree are a pair. -/
+theorem pair_of_handles (t : Node) (ht : MemFS.Inv t) (ref : MemFS.FSRef) (hg : MemFS.GoodRef ref)
+    (H0 : Host) (r0 : HPath) (hwf : H0.WF)
+    (hstate : ∀ q, abs t (MemFS.baseOf ref ++ q) = H0.get (r0 ++ q)) :
+    SimG (MemFS.baseOf ref) r0 ⟨t, [ref]⟩ (World.init H0 r0) :=
+  simG_of_handles t ht ref hg H0 r0 hwf hstate
+
+/-- `mem_disk_agree` is the pair `m0 = []`: there `Pre`'s own `Lstat` clause excludes the root. -/
+theorem pair_of_sim (r0 : HPath) (w : MemFS.World) (dw : World) (h : Sim r0 w dw) : SimG [] r0 w dw :=
+  ⟨h.mem, h.wf, fun q => by simpa using h.state q, w.views.map MemFS.baseOf, by simp, by simpa using h.views⟩
+
+-- the pairing "memory CHILD VIEW as handle 0 against a disk ROOT": the tree { v/ }, the view `v`, the
+-- drivers' host; the hypotheses of `pair_of_handles` hold, a history through the pair is inside `AllPreN`,
+-- and `Lstat("")` is where the two differ (`v` against `root`)
+example : MemFS.GoodRef (.wrap [118, 47]) := by
+  have hb : MemFS.baseOf (.wrap [118, 47]) = [[118]] := by decide
+  refine ⟨?_, by decide⟩
+  rw [hb]
+  intro s hs
+  simp at hs; subst hs; decide
+example : MemFS.baseOf (.wrap [118, 47]) = [[118]] := by decide
+example : MemFS.Inv (MemFS.World.init.run [(0, .mkdirAll [118])]).1.root :=
+  (MemFS.run_refines_from MemFS.World.init MemFS.worldOK_init [(0, .mkdirAll [118])]).2.inv
+example : ∀ q, abs (MemFS.World.init.run [(0, .mkdirAll [118])]).1.root ([[118]] ++ q) = demoHost.get (demoRoot ++ q) := by
+  intro q
+  cases q with
+  | nil => decide
+  | cons a t =>
+    show abs (Node.dir (.cons [118] (.dir .nil) .nil)) ([118] :: a :: t) = _
+    simp [abs, Node.lookup, Kids.find, demoHost, demoRoot, Host.get, Host.raw]
+example :
+    AllPreN ⟨(MemFS.World.init.run [(0, .mkdirAll [118])]).1.root, [.wrap [118, 47]]⟩
+      [(0, .writeFile [97, 47, 98] [1]), (0, .lstat []), (0, .filespace [97]), (1, .lstat []), (1, .readFile [98])] := by
+  decide
+example :
+    ((⟨(MemFS.World.init.run [(0, .mkdirAll [118])]).1.root, [.wrap [118, 47]]⟩ : MemFS.World).run
+      [(0, .writeFile [97, 47, 98] [1]), (0, .lstat []), (0, .filespace [97]), (1, .lstat []), (1, .readFile [98])]).2
+      = [.ok, .stat [118] true 0, .ok, .stat [97] true 0, .data [1]] := by decide
+example :
+    ((World.init demoHost demoRoot).run
+      [(0, .writeFile [97, 47, 98] [1]), (0, .lstat []), (0, .filespace [97]), (1, .lstat []), (1, .readFile [98])]).2
+      = [.val .ok, .val (.stat [114, 111, 111, 116] true 0), .val .ok, .val (.stat [97] true 0), .val (.data [1])] := by
+  decide
+example : RootLstat [[118]] ⟨Node.empty, [.wrap [118, 47]]⟩ 0 (.lstat [46]) := by decide
+
+/-! ### 6. Read confinement for every call -/
+
+/- Vocabulary (`Goat/Proofs/DiskFSReads.lean`): `Eqv r0 A B` — two well-formed hosts carry the same entry at
+   every path at or below `r0` and at every ancestor of `r0`.  Every system call of the model is shown to
+   be a function of the entries at such paths (`step_eqv`). -/
+
+/-- HOST CONFINEMENT OF READS, every call (this closes `host_reads_confined_partial`: no `Pre`, no
+exception).  Two well-formed hosts in which `r0` is a directory and which show the same tree below `r0`:
+every call, with any arguments, through a filespace rooted at `r0` or a view of it rooted anywhere below
+(`r0 ++ b`), has the SAME outcome on both — the same result, listings in the same order, the same verdict of
+a composite that fails half-way — and leaves the same tree below `r0`.  Nothing outside the root directory
+is read into a result or into the tree. -/
+theorem host_reads_confined (r0 b : HPath) (H1 H2 : Host) (hwf1 : H1.WF) (hwf2 : H2.WF)
+    (hr1 : H1.get r0 = some .dir) (hsame : ∀ q, H1.get (r0 ++ q) = H2.get (r0 ++ q)) (op : Op) :
+    (step (r0 ++ b) H1 op).2 = (step (r0 ++ b) H2 op).2
+    ∧ ∀ q, (step (r0 ++ b) H1 op).1.get (r0 ++ q) = (step (r0 ++ b) H2 op).1.get (r0 ++ q) := by
+  obtain ⟨h1, h2⟩ := step_eqv r0 b H1 H2 (eqv_of_below r0 H1 H2 hwf1 hwf2 hr1 hsame) op
+  exact ⟨h1, fun q => h2.at (List.prefix_append _ _)⟩
+
+/-- … and every history, through the filespace and every view opened from it. -/
+theorem host_reads_confined_run (r0 : HPath) (H1 H2 : Host) (hwf1 : H1.WF) (hwf2 : H2.WF)
+    (hr1 : H1.get r0 = some .dir) (hsame : ∀ q, H1.get (r0 ++ q) = H2.get (r0 ++ q)) (ops : List (Nat × Op)) :
+    ((World.init H1 r0).run ops).2 = ((World.init H2 r0).run ops).2
+    ∧ ∀ q, ((World.init H1 r0).run ops).1.host.get (r0 ++ q) = ((World.init H2 r0).run ops).1.host.get (r0 ++ q) := by
+  obtain ⟨h1, h2, _⟩ := run_eqv r0 (World.init H1 r0) (World.init H2 r0)
+    (eqv_of_below r0 H1 H2 hwf1 hwf2 hr1 hsame) rfl
+    (by intro v hv; simp [World.init] at hv; subst hv; exact List.prefix_refl _) ops
+  exact ⟨h1, fun q => h2.at (List.prefix_append _ _)⟩
+
+/-- The hypothesis "`r0` is a directory" cannot be dropped: when the root directory itself is missing,
+`MkdirAll` (and with it `WriteFile`, `CopyDirectory`) and `RemoveAll` look at the ANCESTORS of `r0` — a
+missing ancestor is created / is "nothing to remove", an ancestor that is a file is `ENOTDIR`.  Witness: root
+`x/y` missing on both hosts, `x` missing on one and a file on the other, `MkdirAll("")`. -/
+theorem host_reads_root_needed :
+    ¬ (∀ (r0 : HPath) (H1 H2 : Host) (op : Op), H1.WF → H2.WF → (∀ q, H1.get (r0 ++ q) = H2.get (r0 ++ q)) →
+        (step r0 H1 op).2 = (step r0 H2 op).2) := by
+  intro h
+  have := h [[120], [121]] [] [([[120]], .file [])] (.mkdirAll []) (by decide) (by decide)
+    (by intro q; simp [Host.get, Host.raw])
+  revert this
+  decide
+
+-- two different hosts around the same (empty) root directory: a history with escapes attempted answers alike
+example : (∀ q, demoHost.get (demoRoot ++ q) = Host.get [([[114, 111, 111, 116]], .dir)] (demoRoot ++ q)) := by
+  intro q
+  cases q with
+  | nil => decide
+  | cons a t => simp [demoHost, demoRoot, Host.get, Host.raw]
+example :
+    ((World.init demoHost demoRoot).run
+      [(0, .readFile [46, 46, 47, 104, 111, 115, 116, 115, 101, 99, 114, 101, 116]), (0, .isExist [46, 46]),
+       (0, .writeFile [97, 47, 98] [1]), (0, .copy [46, 46, 47, 97] [99]), (0, .readDir [])]).2
+    = ((World.init [([[114, 111, 111, 116]], .dir)] demoRoot).run
+      [(0, .readFile [46, 46, 47, 104, 111, 115, 116, 115, 101, 99, 114, 101, 116]), (0, .isExist [46, 46]),
+       (0, .writeFile [97, 47, 98] [1]), (0, .copy [46, 46, 47, 97] [99]), (0, .readDir [])]).2 := by decide
 
 end Goat.C02
